@@ -185,6 +185,25 @@ def run_once(doc, fmt, workdir, tmpdir, name, present, fault, n_writes, kind="os
         except OSError:
             pass
         exc.stale_descriptor = not intact
+        # … and the failed call left nothing behind in the document either: the next write of the same document, with nothing
+        # in its way, puts the same bytes in place as a write made to a binary stream
+        exc.followup = None
+        if fmt != "rdf":
+            fdir = os.path.join(os.path.dirname(workdir), "followup")
+            shutil.rmtree(fdir, ignore_errors=True)
+            os.makedirs(fdir)
+            try:
+                buf = io.BytesIO()
+                doc.serialize(buf, format=fmt)
+                fpath = os.path.join(fdir, "after.out")
+                doc.serialize(fpath, format=fmt)
+                got = open(fpath, "rb").read()
+                if got != buf.getvalue():
+                    exc.followup = "%d bytes where the stream received %d" % (len(got), len(buf.getvalue()))
+            except Exception as e2:  # noqa
+                exc.followup = "raised %r" % (e2,)
+            finally:
+                shutil.rmtree(fdir, ignore_errors=True)
     return before, snapshot(workdir), sorted(os.listdir(tmpdir)), exc, plan["calls"]
 
 
@@ -496,6 +515,9 @@ def run(ctx, use_model=True):
                                     fails.append(Failure("oracle", None, "after a failure at step %s the call left a stream behind that still "
                                                          "uses a file descriptor it has given back: a file opened afterwards was written to / "
                                                          "closed by it" % (fault,), case))
+                                if getattr(exc, "followup", None):
+                                    fails.append(Failure("oracle", None, "after a failure at step %s the next, unobstructed write of the same "
+                                                         "document to a file gives %s" % (fault, exc.followup), case))
                                 if not isinstance(exc, BOOMS[kind]):
                                     fails.append(Failure("oracle", None, "injected failure at step %s was swallowed (%r)" % (fault, exc), case))
                                 if got != old:
@@ -631,6 +653,8 @@ def replay(ctx, case):
             fails.append(Failure("oracle", case.get("signature"), "destination changed by a failed write", case))
         if getattr(exc, "stale_descriptor", False):
             fails.append(Failure("oracle", case.get("signature"), "a stream of the failed call still uses a descriptor it gave back", case))
+        if getattr(exc, "followup", None):
+            fails.append(Failure("oracle", case.get("signature"), "the next write after the failed one gives " + exc.followup, case))
         if case["fault"] is None and key not in after:
             fails.append(Failure("oracle", case.get("signature"), "nothing written to the named file", case))
         if [k for k in after if k not in before and k != key]:
